@@ -104,7 +104,7 @@ CLAIMED.update({
         text="Machine-checked theorems (Properties/C16.v): for the relational model of TopDeniedKeys (every eviction survivor choice, every tie order): report shape, never overstates, exact while few, "
              "256-byte filter, 3*max(+1) memory bound, clamp/disable; and for the label escaping: a Prometheus label scanner reads back exactly the escaped key for ANY code points, no raw control "
              "character, one line feed per sample line. Every real table step (hook H3) is checked against the relation; escaping compared with the model.",
-        note=RESP_NOTE + " HashMap iteration order is a relation in the model; trace acceptance for table limits <= 3 is evaluated in Coq, larger limits by the Rust-side oracles only.",
+        note=RESP_NOTE + " HashMap iteration order is a relation in the model; trace acceptance for table limits <= 3 is evaluated in Coq by checkers proved sound for the relation (C16_acceptance_sound), larger limits by the Rust-side oracles only.",
         technique="Coq proof (relational model + invariants; escaping/scanner inverse by induction) + trace acceptance against hook snapshots", ref="DESIGN.md §5 C16"),
 })
 
